@@ -11,7 +11,7 @@ POOL = ["", " ", "'", '"', "'''", "((", "))", "1...", "...", "5...1", "-", "--1"
         # audit round: layouts repeating a placeholder, no-break / ideographic blanks next to a name, a carriage return before a non-ASCII character, indented second line
         "DD.MM.DD", "hh:mm:mm", "YYYY-YYYY", "\xa0id", "id\xa0", "\u3000id", "id,\xa0name", "\xa0kind < 3", "id\r\u00e4", "1...\r\u00e4", "  1\n 2", " id", " kind < 3", "kind < 3 or nosuch > 1", "kind < 3 and exit()",
         "kind < 3 or (lambda: exit(4))()", "kind" + " + 1" * 3000 + " > 0", "kind", "kind < 5 / (count - 1)",
-        "x{99999999999}", "(" * 500 + "a" + ")" * 500, "\\\n kind < 3", "\\\nid"]
+        "(?a)(?u)x", "x{99999999999}", "(" * 500 + "a" + ")" * 500, "\\\n kind < 3", "\\\nid"]
 GOOD_ROWS = {"delimited": ["1", "abc", "a", "1.5", "31.12.2020", "ab1", "a1", "k"], "fixed": ["12345", "abc", "        "], "excel": ["1", ""], "ods": ["1.5"]}
 
 BASE_CIDS = {
